@@ -54,7 +54,8 @@ def gen(seed, tier="quick"):
         "i_max": pos3(0.001, 2.0) if randomise else [0.0, 0.0, 0.0],
         "kp_att": pos3(0.5, 10.0) if randomise else [5.0, 5.0, 2.0],
         "z_integral_max": knobs.choice([0.0, 0.05, 0.5, 5.0]) if randomise else 0.0,
-        "psi_sp0": knobs.choice([0.0, 3.1, -3.1, knobs.uniform(-math.pi, math.pi)]),
+        "psi_sp0": knobs.choice([0.0, 3.1, -3.1, 3.14, -3.14, knobs.uniform(-math.pi, math.pi)]),
+        "at_w": [knobs.uniform(-6, 6) for _ in range(3)] if (randomise and knobs.random() < 0.3) else [0.0, 0.0, 0.0],
     }
     tilt = ic.uniform(0, math.radians(40))
     az = ic.uniform(-math.pi, math.pi)
@@ -65,7 +66,8 @@ def gen(seed, tier="quick"):
     x0 = [ic.uniform(-3, 3), ic.uniform(-3, 3), ic.uniform(10, 40)] + [ic.uniform(-1, 1) for _ in range(3)] + q.tolist() + \
          [ic.uniform(-1, 1) for _ in range(3)] + [HOVER_OMEGA] * 4
 
-    enabled = {k: flt.random() < 0.5 for k in ("tick_missed", "tick_long", "tick_duplicate", "att_sign_flip", "att_jump", "pos_jump", "stale_state", "position_reset")}
+    enabled = {k: flt.random() < 0.5 for k in ("tick_missed", "tick_long", "tick_duplicate", "att_sign_flip", "att_jump", "pos_jump", "stale_state", "position_reset",
+                                                "knob_change", "feedforward_accel")}
     ops = []
     k = 0
     while k < n:
@@ -73,6 +75,14 @@ def gen(seed, tier="quick"):
         if k >= n:
             break
         r = work.random()
+        if r < 0.08:
+            # a long full-rudder hold: the yaw set-point has to travel through +-pi
+            v = [0.0] * 4
+            v[3] = work.choice([-1.0, 1.0])
+            ops.append({"k": k, "op": "sticks", "aetr": v, "tag": "stick_hold_extreme"})
+            ops.append({"k": k, "op": "mode", "mode": "velocity"})
+            k += work.randint(150, 400)
+            continue
         if r < 0.35:
             v = [work.choice([-1.0, 1.0, 0.0, work.uniform(-1, 1)]) for _ in range(4)]
             ops.append({"k": k, "op": "sticks", "aetr": v})
@@ -100,6 +110,18 @@ def gen(seed, tier="quick"):
                 op["dt"] = flt.choice([0.03, 0.05])
             elif kind == "stale_state":
                 op["n"] = flt.randint(1, 10)
+            elif kind == "knob_change":
+                ch = {}
+                for nm in flt.sample(["i_max", "ki_rate", "kp_rate", "f_cut", "kp_att"], flt.randint(1, 2)):
+                    if nm == "f_cut":
+                        ch[nm] = 10 ** flt.uniform(-1, 3)
+                    elif nm == "i_max":
+                        ch[nm] = [10 ** flt.uniform(-3, 0.3) for _ in range(3)]
+                    else:
+                        ch[nm] = [10 ** flt.uniform(-2, 0.5) for _ in range(3)]
+                op["knobs"] = ch
+            elif kind == "feedforward_accel":
+                op["at_w"] = [flt.choice([0.0, flt.uniform(-8, 8)]) for _ in range(3)]
             ops.append(op)
     return {
         "family": NAME, "seed": seed, "n_ticks": n, "dt": 0.01, "jitter": knobs.choice([0.0, 0.1, 0.3, 0.5]),
@@ -123,7 +145,7 @@ def run(scn):
     rec = Recorder(keep=500)
     viol = []
     harness_error = None
-    kn = scn["knobs"]
+    kn = dict(scn["knobs"])
     probes = {"yaw_wrapped": 0, "leash_active": 0, "integrator_clamped": 0, "z_integrator_clamped": 0, "p_term_saturated": 0, "q0_negative_seen": 0,
               "sign_flip_checked": 0, "shadow_zero_checks": 0, "reset_checked": 0, "plant_failed": 0, "ticks": 0, "not_judged_nonfinite": 0,
               "calls_attitude_control": 0, "calls_so3_attitude_control": 0, "calls_se23_error": 0, "calls_position_control": 0,
@@ -171,6 +193,14 @@ def run(scn):
     def sub_se23pos(args):
         a = list(args)
         a[1] = kn["kp_att"]
+        if any(kn.get("at_w", [0, 0, 0])):
+            a[3] = kn["at_w"]
+        return tuple(a)
+
+    def sub_pos(args):
+        a = list(args)
+        if any(kn.get("at_w", [0, 0, 0])):
+            a[3] = kn["at_w"]
         return tuple(a)
 
     def sub_velocity(args):
@@ -201,9 +231,10 @@ def run(scn):
         if mem["rate_calls"] >= 2:
             if mem["prev_i1"] is not None and i0.tobytes() != mem["prev_i1"].tobytes():
                 violation("integrator_memory_not_fed_back", "Simulator.update_controller", "i0 passed to the rate loop %s is not the i1 it returned last step %s" % (i0.tolist(), mem["prev_i1"].tolist()))
-            if not np.all(np.abs(i0) <= i_max):
+            if mem.get("prev_imax") is not None and mem["prev_imax"].tobytes() == i_max.tobytes() and not np.all(np.abs(i0) <= i_max):
                 violation("integrator_exceeds_limit", "Simulator.update_controller", "fed-back integrator state %s outside +-i_max %s" % (i0.tolist(), i_max.tolist()))
         mem["prev_i1"] = i1.copy()
+        mem["prev_imax"] = i_max.copy()
         if not np.allclose(e1, vec(om_r) - vec(om), rtol=0, atol=1e-12):
             violation("rate_error_wrong", "attitude_rate_control", "e1 is not omega_r - omega")
 
@@ -311,8 +342,10 @@ def run(scn):
         Rexp = rm.Rz(yaw + math.radians(rdd2.yaw_rate_max) * aetr[3]) @ rm.Ry(math.radians(rdd2.rollpitch_max) * aetr[1]) @ rm.Rx(math.radians(rdd2.rollpitch_max) * aetr[0])
         if abs(np.linalg.norm(q_r) - 1) > 1e-9:
             probes["setpoint_quat_not_unit"] += 1
+        if not (np.linalg.norm(q_r) > 1e-6):
+            violation("stick_map_not_linear", "input_auto_level", "attitude set-point quaternion %s does not represent a rotation" % q_r.tolist())
             return
-        err = rm.rot_angle(Rexp.T @ rm.quat_to_R(q_r))
+        err = rm.rot_angle(Rexp.T @ rm.quat_to_R(q_r))  # quat_to_R normalises
         if err > 1e-7:
             violation("stick_map_not_linear", "input_auto_level", "attitude set-point is %.3e rad away from yaw+60deg*rudder, 30deg*elevator, 30deg*aileron" % err)
 
@@ -405,11 +438,25 @@ def run(scn):
         reach = rm.rot_angle((rm.quat_to_R(q) @ rm.rot_exp(zeta[6:9])).T @ rm.quat_to_R(q_r))
         if reach > REACH_TOL * (1 + 1.0 / max(1e-3, math.pi - ang)):
             violation("commanded_rotation_misses_reference", "se23_error", "rotational part of the SE_2(3) error applied to the measured attitude ends %.3e rad from the reference" % reach)
+        # shadow calls: the SE_2(3) attitude law (not wired into the script) on the error just computed, and
+        # its zero set for the same rotation in either quaternion sign
+        if probes["calls_se23_error"] % 25 == 1 and "se23_attitude_control" in real:
+            probes["shadow_zero_checks"] += 1
+            kp = vec(kn["kp_att"])
+            om = vec(real["se23_attitude_control"](kp, zeta))
+            judge_attitude_law("se23_attitude_control", kp, q, q_r, om, True)
+            for label, qq in (("q", q), ("-q", -q)):
+                z0 = vec(real["se23_error"](p, v, q, p, v, qq))
+                o0 = vec(real["se23_attitude_control"](kp, z0))
+                if not (np.all(np.isfinite(o0)) and np.linalg.norm(o0) <= ZERO_TOL * np.linalg.norm(kp)):
+                    violation("nonzero_command_at_zero_error", "se23_attitude_control",
+                              "se23_attitude_control(kp, se23_error(X, X_r)) = %s with X_r = X (attitude given as %s): the command must vanish" % (o0.tolist(), label), same_sign=(label == "q"))
+                    break
 
     monitors = {"attitude_rate_control": mon_rate, "position_control": mon_pos, "se23_position_control": mon_se23pos, "input_velocity": mon_velocity,
                 "input_acro": mon_acro, "input_auto_level": mon_auto_level, "attitude_control": mon_att, "so3_attitude_control": mon_so3att,
                 "se23_error": mon_se23err}
-    subst = {"attitude_rate_control": sub_rate, "attitude_control": sub_kp0, "so3_attitude_control": sub_kp0, "se23_position_control": sub_se23pos,
+    subst = {"position_control": sub_pos, "attitude_rate_control": sub_rate, "attitude_control": sub_kp0, "so3_attitude_control": sub_kp0, "se23_position_control": sub_se23pos,
              "input_velocity": sub_velocity}
     common.wrap_eqs(node, monitors, subst)
 
@@ -493,6 +540,12 @@ def run(scn):
                         elif o == "position_reset":
                             fault(o)
                             mem["force_reset"] = 1
+                        elif o == "knob_change":
+                            fault(o)
+                            kn.update(op["knobs"])
+                        elif o == "feedforward_accel":
+                            fault(o)
+                            kn["at_w"] = list(op["at_w"])
                     dt = max(DT_MIN, dt)
                     t += dt
                     yield env.at(t)
@@ -550,9 +603,9 @@ def simplify(scn):
             out.append(dict(scn, n_ticks=n))
             break
     shipped = {"kp_rate": [0.3, 0.3, 0.05], "ki_rate": [0.0, 0.0, 0.0], "kd_rate": [0.1, 0.1, 0.0], "f_cut": 10.0, "i_max": [0.0, 0.0, 0.0],
-               "kp_att": [5.0, 5.0, 2.0], "z_integral_max": 0.0, "psi_sp0": 0.0}
+               "kp_att": [5.0, 5.0, 2.0], "z_integral_max": 0.0, "psi_sp0": 0.0, "at_w": [0.0, 0.0, 0.0]}
     for k, v in shipped.items():
-        if scn["knobs"][k] != v:
+        if scn["knobs"].get(k, v) != v:
             kn = dict(scn["knobs"])
             kn[k] = v
             out.append(dict(scn, knobs=kn))
